@@ -1021,6 +1021,63 @@ Plan gen_c15(uint64_t seed, bool th) {
   return g.p;
 }
 
+// ---------------------------------------------------------------- C19: activation - once, in order, or errors
+
+Plan gen_c19(uint64_t seed, bool th) {
+  G g(seed, th);
+  g.p.prop = "C19";
+  g.p.seed = seed;
+  base_shape(g, 3, th ? 7 : 6);
+  // which names have a service file
+  std::vector<std::string> act;
+  for (auto &n : g.sh.names) if (std::find(act.begin(), act.end(), n) == act.end() && (act.empty() || g.r.pct(70))) act.push_back(n);
+  std::string csv;
+  for (auto &n : act) csv += (csv.empty() ? "" : ",") + n;
+  g.p.cfg["activatable"] = csv;
+  long tmo = g.r.pct(60) ? (g.r.pct(50) ? 200 : 1500) : -1;
+  if (tmo >= 0) g.p.cfg["lim.start_timeout"] = std::to_string(tmo);
+  g.connect_all(g.r.pct(30), g.r.pct(40));
+  if (g.r.pct(25)) g.add(g.mk("addmatch", g.a_client(), {-1}, {"eavesdrop='true'"}));
+  int nops = (int)g.r.range(6, th ? 60 : 26);
+  int started = 0;
+  auto a_act = [&]() { return act[g.r.below(act.size())]; };
+  for (int op = 0; op < nops; op++) {
+    int x = (int)g.r.below(100);
+    int from = g.a_client();
+    if (x < 34) {
+      // a message that may auto-start the service (calls mostly; unicast signals and replies are held as well)
+      std::string dest = g.r.pct(85) ? a_act() : g.a_name();
+      int type = g.r.pct(85) ? wire::T_CALL : wire::T_SIGNAL;
+      int flags = g.r.pct(12) ? wire::FL_NO_AUTO_START : (g.r.pct(12) ? wire::FL_NO_REPLY_EXPECTED : 0);
+      g.add(g.mk("send", from, {type, flags, g.deliver_mode()}, {dest, "/svc", "com.example.Iface", "Work", "", ""}));
+      started++;
+    } else if (x < 46) {
+      g.add(g.mk("query", from, {-1}, {"StartServiceByName", g.r.pct(85) ? a_act() : (g.r.pct(50) ? g.a_name() : std::string("com.example.nosuch"))}));
+      started++;
+    } else if (x < 62) {
+      // somebody takes a name: the started service, quickly or late (or a name nobody waits for)
+      g.add(g.mk("reqname", from, {(int64_t)g.r.below(8), -1}, {g.r.pct(80) ? a_act() : g.a_name()}));
+    } else if (x < 72) {
+      // the started process reports in, exits (status 0, non-zero, or killed by a signal), or fails to exec
+      int a = (int)g.r.below(100);
+      g.add(g.mk("proc", -1, {(int64_t)g.r.below(4), a < 40 ? 0 : a < 85 ? 1 : 2, a < 40 ? 0 : (a < 85 ? (g.r.pct(25) ? 0 : g.r.pct(70) ? (int64_t)g.r.range(1, 127) : 256 + 11) : (int64_t)g.r.range(1, 30))}));
+    } else if (x < 79) {
+      g.add(g.mk("adv", -1, {g.r.pct(50) ? (int64_t)g.r.range(1, 150) : (int64_t)g.r.range(150, 3000)}));
+    } else if (x < 84) {
+      g.add(g.mk("relname", from, {-1}, {a_act()}));
+    } else if (x < 89) {
+      g.add(g.mk("reply", g.a_client(), {(int64_t)g.r.below(4), g.r.pct(85) ? 0 : 1, -1}));
+    } else if (x < 93) {
+      g.add(g.mk("close", from));
+    } else if (x < 96) {
+      g.add(g.mk("query", from, {-1}, {g.r.pct(50) ? "ListActivatableNames" : "NameHasOwner", a_act()}));
+    } else g.add(g.mk("deliver", from, {-1}));
+    g.pump();
+    if (g.r.pct(15)) g.add(g.mk("check"));
+  }
+  return g.p;
+}
+
 // ---------------------------------------------------------------- C14: allocation failure at every point of one operation
 
 Plan gen_c14(uint64_t seed, bool th) {
@@ -1108,6 +1165,7 @@ Plan generate(const std::string &prop, uint64_t seed, bool thorough) {
   if (prop == "C18") return gen_c18(seed, thorough);
   if (prop == "C14") return gen_c14(seed, thorough);
   if (prop == "C15") return gen_c15(seed, thorough);
+  if (prop == "C19") return gen_c19(seed, thorough);
   core::harness_error("no generator for property %s", prop.c_str());
 }
 
